@@ -1,1 +1,246 @@
 //! Verification hooks: concurrency protocols (cargo feature `mmtk_verif`; add-only wrappers).
+//!
+//! * [`fwd`]: the object-forwarding protocol of `util::object_forwarding` (a crate-private module).
+//! * [`casbit`]: the "exactly once" state changes: `MarkState::test_and_mark`,
+//!   `ImmixSpace::attempt_mark`, `LargeObjectSpace::test_and_mark`, `ObjectBarrier::log_object`
+//!   (pin / unpin are public methods of `VMLocalPinningBitSpec` and need no wrapper).
+//! * [`bpool`]: `util::heap::blockpageresource::BlockPool` with a settable worker ordinal.
+//!
+//! Every function here is a transparent call of the real item.
+
+/// `util::object_forwarding`.
+pub mod fwd {
+    use crate::util::copy::{CopySemantics, GCWorkerCopyContext};
+    use crate::util::object_forwarding as of;
+    use crate::util::ObjectReference;
+    use crate::vm::VMBinding;
+
+    /// `attempt_to_forward`
+    pub fn attempt_to_forward<VM: VMBinding>(object: ObjectReference) -> u8 {
+        of::attempt_to_forward::<VM>(object)
+    }
+    /// `spin_and_get_forwarded_object`
+    pub fn spin_and_get_forwarded_object<VM: VMBinding>(object: ObjectReference, forwarding_bits: u8) -> ObjectReference {
+        of::spin_and_get_forwarded_object::<VM>(object, forwarding_bits)
+    }
+    /// `forward_object`
+    pub fn forward_object<VM: VMBinding>(
+        object: ObjectReference,
+        semantics: CopySemantics,
+        copy_context: &mut GCWorkerCopyContext<VM>,
+        on_after_forwarding: impl FnOnce(ObjectReference),
+    ) -> ObjectReference {
+        of::forward_object::<VM>(object, semantics, copy_context, on_after_forwarding)
+    }
+    /// `get_forwarding_status`
+    pub fn get_forwarding_status<VM: VMBinding>(object: ObjectReference) -> u8 {
+        of::get_forwarding_status::<VM>(object)
+    }
+    /// `state_is_forwarded_or_being_forwarded`
+    pub fn state_is_forwarded_or_being_forwarded(bits: u8) -> bool {
+        of::state_is_forwarded_or_being_forwarded(bits)
+    }
+    /// `is_forwarded`
+    pub fn is_forwarded<VM: VMBinding>(object: ObjectReference) -> bool {
+        of::is_forwarded::<VM>(object)
+    }
+    /// `is_forwarded_or_being_forwarded`
+    pub fn is_forwarded_or_being_forwarded<VM: VMBinding>(object: ObjectReference) -> bool {
+        of::is_forwarded_or_being_forwarded::<VM>(object)
+    }
+    /// `clear_forwarding_bits`
+    pub fn clear_forwarding_bits<VM: VMBinding>(object: ObjectReference) {
+        of::clear_forwarding_bits::<VM>(object)
+    }
+    /// `read_forwarding_pointer`
+    pub fn read_forwarding_pointer<VM: VMBinding>(object: ObjectReference) -> ObjectReference {
+        of::read_forwarding_pointer::<VM>(object)
+    }
+    /// `write_forwarding_pointer`
+    pub fn write_forwarding_pointer<VM: VMBinding>(object: ObjectReference, new_object: ObjectReference) {
+        of::write_forwarding_pointer::<VM>(object, new_object)
+    }
+    /// `forwarding_bits_offset_in_forwarding_pointer`
+    pub fn forwarding_bits_offset_in_forwarding_pointer<VM: VMBinding>() -> Option<isize> {
+        of::verif_forwarding_bits_offset::<VM>()
+    }
+    /// A stub copy context (`GCWorkerCopyContext::new_non_copy`).
+    pub fn new_non_copy_context<VM: VMBinding>() -> GCWorkerCopyContext<VM> {
+        GCWorkerCopyContext::new_non_copy()
+    }
+}
+
+/// Mark / log state changes.
+pub mod casbit {
+    use crate::plan::{VerifBarrierSemantics as BarrierSemantics, VerifObjectBarrier as ObjectBarrier};
+    use crate::policy::immix::ImmixSpace;
+    use crate::policy::largeobjectspace::LargeObjectSpace;
+    use crate::util::metadata::mark_bit::MarkState;
+    use crate::util::ObjectReference;
+    use crate::vm::VMBinding;
+    use crate::MMTK;
+    use std::marker::PhantomData;
+
+    /// `MarkState::test_and_mark` on a fresh `MarkState` whose state was flipped `flips` times by
+    /// `on_global_release` (which flips only when the mark bit is in the header).
+    pub fn mark_state_test_and_mark<VM: VMBinding>(flips: usize, object: ObjectReference) -> bool {
+        let mut ms = MarkState::new();
+        for _ in 0..flips {
+            ms.on_global_release::<VM>();
+        }
+        ms.test_and_mark::<VM>(object)
+    }
+
+    /// `MarkState::is_marked` on a fresh (unflipped) `MarkState`.
+    pub fn mark_state_is_marked<VM: VMBinding>(object: ObjectReference) -> bool {
+        MarkState::new().is_marked::<VM>(object)
+    }
+
+    /// `ImmixSpace::attempt_mark` on the first `ImmixSpace` of the plan (`None` if the plan has none).
+    pub fn immix_attempt_mark<VM: VMBinding>(mmtk: &MMTK<VM>, object: ObjectReference, mark_state: u8) -> Option<bool> {
+        let mut res = None;
+        mmtk.get_plan().for_each_space(&mut |space| {
+            if res.is_none() {
+                if let Some(ix) = space.downcast_ref::<ImmixSpace<VM>>() {
+                    res = Some(ix.verif_attempt_mark(object, mark_state));
+                }
+            }
+        });
+        res
+    }
+
+    /// `LargeObjectSpace::test_and_mark` on the first large object space of the plan.
+    pub fn los_test_and_mark<VM: VMBinding>(mmtk: &MMTK<VM>, object: ObjectReference, value: u8) -> Option<bool> {
+        let mut res = None;
+        mmtk.get_plan().for_each_space(&mut |space| {
+            if res.is_none() {
+                if let Some(los) = space.downcast_ref::<LargeObjectSpace<VM>>() {
+                    res = Some(los.verif_test_and_mark(object, value));
+                }
+            }
+        });
+        res
+    }
+
+    /// Set `in_nursery_gc` of the plan's large object space (what `prepare(full_heap)` does).
+    ///
+    /// # Safety
+    /// No other thread may use the plan.
+    pub unsafe fn los_set_in_nursery_gc<VM: VMBinding>(mmtk: &MMTK<VM>, nursery: bool) -> bool {
+        let mut found = false;
+        mmtk.get_plan_mut().for_each_space_mut(&mut |space| {
+            if let Some(los) = space.downcast_mut::<LargeObjectSpace<VM>>() {
+                los.verif_set_in_nursery_gc(nursery);
+                found = true;
+            }
+        });
+        found
+    }
+
+    struct NoSemantics<VM: VMBinding>(PhantomData<VM>);
+    impl<VM: VMBinding> BarrierSemantics for NoSemantics<VM> {
+        type VM = VM;
+        fn flush(&mut self) {}
+        fn object_reference_write_slow(&mut self, _src: ObjectReference, _slot: VM::VMSlot, _target: Option<ObjectReference>) {}
+        fn memory_region_copy_slow(&mut self, _src: VM::VMMemorySlice, _dst: VM::VMMemorySlice) {}
+    }
+
+    /// `ObjectBarrier::log_object` (of an object barrier whose semantics do nothing).
+    pub fn log_object<VM: VMBinding>(object: ObjectReference) -> bool {
+        ObjectBarrier::new(NoSemantics::<VM>(PhantomData)).verif_log_object(object)
+    }
+}
+
+/// `BlockPool`.
+pub mod bpool {
+    use crate::util::heap::blockpageresource::BlockPool;
+    use crate::util::linear_scan::Region;
+    use crate::util::Address;
+
+    /// A 32 KiB region that is nothing but its address.
+    #[derive(Copy, Clone, Debug, PartialEq, PartialOrd)]
+    pub struct VBlock(Address);
+
+    impl Region for VBlock {
+        const LOG_BYTES: usize = 15;
+        fn from_aligned_address(address: Address) -> Self {
+            debug_assert!(address.is_aligned_to(Self::BYTES));
+            VBlock(address)
+        }
+        fn start(&self) -> Address {
+            self.0
+        }
+    }
+
+    /// Block number `n` ↦ the block at `(n + 1) << 15` (never dereferenced).
+    pub fn block(n: usize) -> VBlock {
+        VBlock(unsafe { Address::from_usize((n + 1) << 15) })
+    }
+    /// Inverse of [`block`].
+    pub fn number(b: VBlock) -> usize {
+        (b.0.as_usize() >> 15) - 1
+    }
+
+    /// A real `BlockPool<VBlock>`.
+    pub struct Pool(BlockPool<VBlock>);
+
+    // `BlockPool` is shared between GC workers and allocating threads through
+    // `BlockPageResource`, which mmtk-core declares `Sync` by an unsafe impl on the enclosing
+    // space; the wrapper does the same for the pool alone.
+    unsafe impl Sync for Pool {}
+    unsafe impl Send for Pool {}
+
+    /// Make the calling thread GC worker `ordinal`.
+    pub fn set_worker_ordinal(ordinal: usize) {
+        crate::scheduler::verif_set_worker_ordinal(ordinal)
+    }
+
+    impl Pool {
+        /// `BlockPool::new`
+        pub fn new(num_workers: usize) -> Self {
+            Pool(BlockPool::new(num_workers))
+        }
+        /// `BlockPool::push` (by the calling thread's worker ordinal)
+        pub fn push(&self, n: usize) {
+            self.0.push(block(n))
+        }
+        /// `BlockPool::pop`
+        pub fn pop(&self) -> Option<usize> {
+            self.0.pop().map(number)
+        }
+        /// `BlockPool::flush_all`
+        pub fn flush_all(&self) {
+            self.0.flush_all()
+        }
+        /// `BlockPool::len`
+        pub fn len(&self) -> usize {
+            self.0.len()
+        }
+        /// `BlockPool::len() == 0`
+        pub fn is_empty(&self) -> bool {
+            self.0.len() == 0
+        }
+        /// `BlockPool::iterate_blocks`
+        pub fn iterate_blocks(&self) -> Vec<usize> {
+            let mut v = vec![];
+            self.0.iterate_blocks(&mut |b| v.push(number(b)));
+            v
+        }
+        /// `(count, head, global, locals)` in internal order.
+        #[allow(clippy::type_complexity)]
+        pub fn dump(&self) -> (usize, Option<Vec<usize>>, Vec<Vec<usize>>, Vec<Vec<usize>>) {
+            let d = self.0.verif_dump();
+            let f = |v: Vec<VBlock>| v.into_iter().map(number).collect::<Vec<_>>();
+            (
+                d.count,
+                d.head.map(f),
+                d.global.into_iter().map(f).collect(),
+                d.locals.into_iter().map(f).collect(),
+            )
+        }
+        /// `BlockQueue::CAPACITY`
+        pub fn capacity() -> usize {
+            BlockPool::<VBlock>::VERIF_CAPACITY
+        }
+    }
+}
